@@ -270,4 +270,5 @@ def run(ctx):
                 len(perms), len(tx), len(set(srt)), tx[:4]), {"list": tx})
     for key, lst in sorted(agg.items()):
         ctx.violation(key, "%s  [%d case(s)]" % (lst[0][0][:600], len(lst)), lst[0][1])
+    ctx.require(len(pool) >= 500 and ctx.extra.get("include_matrix", 0) >= 100, "pool %d, include matrix %s" % (len(pool), ctx.extra.get("include_matrix")))
     ctx.extra.update({"triples": len(triples), "lists": len(lists), "pool": len(pool)})
